@@ -75,7 +75,7 @@ func (op *tagValuesLookup) findTagValueIDsByExpr(expr stmt.Expr) {
 			// no series under current node carries the tag key(series of a metric need not have the same
 			// tag keys): the filter matches nothing here, other filters of the condition still may.
 			op.unknownTagKeys++
-			op.executeCtx.TagFilterResult[expr.Rewrite()] = &flow.TagFilterResult{
+			op.executeCtx.TagFilterResult[flow.TagFilterKey(expr)] = &flow.TagFilterResult{
 				TagValueIDs: roaring.New(),
 				KeyNotFound: true,
 			}
@@ -94,7 +94,7 @@ func (op *tagValuesLookup) findTagValueIDsByExpr(expr stmt.Expr) {
 			tagValueIDs = roaring.New()
 		}
 		// save atomic tag filter result
-		op.executeCtx.TagFilterResult[expr.Rewrite()] = &flow.TagFilterResult{
+		op.executeCtx.TagFilterResult[flow.TagFilterKey(expr)] = &flow.TagFilterResult{
 			TagKeyID:    tagKeyID,
 			TagValueIDs: tagValueIDs,
 		}
